@@ -211,6 +211,8 @@ def install_response(R):
         'forall("i:ident", lambda i: implies(removes.has(i), ident(removes.keyobj(i)) == i))',
         'forall("p:int", lambda p: implies(0 <= p and p < len(address_adds), address_adds[p].type == 1 or address_adds[p].type == 28))',
         'forall("p:int", lambda p: implies(0 <= p and p < len(other_adds), not (other_adds[p].type == 1 or other_adds[p].type == 28)))',
+        'forall("j:int", lambda j: implies(0 <= j and j < _k and %s[j].unique, '
+        '   unique_types.has((%s[j].name, %s[j].type, %s[j].class_))))' % (A, A, A, A),
         'forall("t:tuple[str,int,int]", lambda t: unique_types.has(t) == exists("j:int", lambda j: 0 <= j and j < _k '
         '   and %s[j].unique and t[0] == %s[j].name and t[1] == %s[j].type and t[2] == %s[j].class_))' % (A, A, A, A),
         ]
@@ -245,6 +247,17 @@ def install_response(R):
         'forall("p:int, q:int", lambda p, q: implies(%s + old(card(self.listeners)) <= p and p < q and q < len(LOG.events), '
         '   LOG.events[p][1] is not LOG.events[q][1]))' % L0,
     ]
+    # (c) cache-flush: other cached records of the same name/type/class older than one second - and only those -
+    #     are set to expire one second later; everything else not named by the datagram keeps created and ttl
+    HIT = ('exists("m:int", lambda m: 0 <= m and m < %s and %s[m].unique and r.key == lower(%s[m].name) '
+           'and r.type == %s[m].type and r.class_ == %s[m].class_)' % (n, A, A, A, A))
+    NOTIN = 'old(in_cache(%s, ident(r))) and r is old(cached(%s, ident(r))) and not occ(%s, %s, ident(r))' % (C, C, A, n)
+    flush_post = [
+        'forall("r:DNSRecord", lambda r: implies(%s and %s and msg.now - old(r.created) > 1000, '
+        '   r.created == msg.now and r.ttl == 1))' % (NOTIN, HIT),
+        'forall("r:DNSRecord", lambda r: implies(%s and not (%s and msg.now - old(r.created) > 1000), '
+        '   r.created == old(r.created) and r.ttl == old(r.ttl)))' % (NOTIN, HIT),
+    ]
     views = [
         View('heap', loops={0: Loop(inv=base + heap_facts('_k'), modifies=LM)}, ensures=[], only_loops=True),
         View('pairs', loops={0: Loop(inv=base + upd('_k'), assume_only=heap_facts('_k'), modifies=LM)},
@@ -253,7 +266,7 @@ def install_response(R):
         View('sets', loops={0: Loop(inv=base + inv_sets, assume_only=heap_facts('_k'), modifies=LM)}, ensures=[], only_loops=True),
         # every invariant above is inductive on its own; here they are only assumed and combined after the loop
         View('final', loops={0: Loop(inv=[], assume_only=base + upd('_k') + heap_facts('_k') + inv_adds + inv_sets,
-                                     modifies=LM)}, ensures=final + log_facts,
+                                     modifies=LM)}, ensures=final + flush_post + log_facts,
              at_calls={
                  # listeners are told BEFORE anything is added to / removed from the cache ...
                  'async_updates': [
